@@ -10,7 +10,11 @@ Per case (constructor + parameters):
 from_substrings / from_finite_language: (b) + validity (+ (c) for from_finite_language), and additionally an all-words
 comparison (proved comparators of property 0) with the obvious NFA / trie built by this module.
 from_substring / from_suffix: additionally (a') against the mirror model of the code itself (KMP failure table and
-transition loop, coq/Model/KMP.v, proved equal to the specification model): validity, dfa_diff, exact table."""
+transition loop, coq/Model/KMP.v, proved equal to the specification model): validity, dfa_diff, exact table.
+from_finite_language: additionally against the mirror model of the Mihov-Schulz construction (coq/Model/FiniteLang.v, driver
+op 14; C15_from_finite_language_lang / _minimal): same refusal (a word with a symbol outside the alphabet), dfa_diff, and - after
+renaming the implementation's states (prefix strings, trap 0) to the model's numbers through the model's list of state
+names - the exact transition table (the state that survives a merge is fixed by the sorted order of the words)."""
 from __future__ import annotations
 
 import itertools
@@ -23,7 +27,7 @@ RULE = ("every constructor x parameter set: all patterns of length <= 4 over alp
         "included) x every flag combination for from_prefix/from_suffix/from_substring/from_subsequence; of_length lo 0-4 x "
         "hi None/0-4 x every counted-symbol subset; count_mod k 1-4 x every remainder subset x every counted subset; "
         "nth_from_start/nth_from_end n 1-3 x every symbol; universal/empty; random pattern sets (1-4 patterns, length <= 3, "
-        "every fourth set up to length 6, nested/overlapping) x flags for from_substrings; random finite languages (<= 6 words) x as_partial; refusals "
+        "every fourth set up to length 6, nested/overlapping) x flags for from_substrings; random finite languages (<= 6 words) x as_partial, languages with a word outside the alphabet (refused); refusals "
         "(k = 0, n = 0, symbol outside the alphabet). distinct = distinct (constructor, alphabet, parameters); "
         "non-trivial = the result has >= 2 states and its language is neither empty nor universal up to length K")
 
@@ -32,7 +36,7 @@ SINK = object()
 # driver op codes (coq/Model/D15.v)
 OPS = {"from_prefix": 1, "from_suffix": 2, "from_substring": 3, "from_subsequence": 4, "of_length": 5,
        "count_mod": 6, "nth_from_start": 7, "nth_from_end": 8, "universal_language": 9, "empty_language": 10}
-OP_KMP, OP_KMP_TABLE, OP_AC = 11, 12, 13
+OP_KMP, OP_KMP_TABLE, OP_AC, OP_FL = 11, 12, 13, 14
 PROMISED_MINIMAL = {"from_prefix", "from_suffix", "from_substring", "from_subsequence", "of_length",
                     "nth_from_start", "nth_from_end", "from_finite_language", "universal_language", "empty_language"}
 
@@ -187,6 +191,9 @@ class Case:
         if kind == "of_length":
             degenerate = (k["hi"] is not None and k["hi"] < k["lo"]) or (k["cs"] is not None and not k["cs"])
             return "outside" if degenerate else "promised"
+        if kind == "from_finite_language" and not self.sigma and k["lang"] and not k["as_partial"]:
+            # side condition of C15_from_finite_language_minimal: over the empty alphabet _to_complete adds an unreachable trap
+            return "outside"
         return "promised"
 
     def family(self):
@@ -299,7 +306,7 @@ class Runner:
         ctx = self.ctx
         prepared, reqs = [], []
         for c in cases:
-            sy = enc.SymMap(c.sigma, extra=c.kw.get("s", "") + "".join(c.kw.get("pats", ())))
+            sy = enc.SymMap(c.sigma, extra=c.kw.get("s", "") + "".join(c.kw.get("pats", ())) + "".join(c.kw.get("lang", ())))
             r = outcome(c.call)
             K = word_bound(c.sigma, ctx.tier)
             info = {"case": c, "sy": sy, "r": r, "K": K, "slots": {}}
@@ -321,6 +328,12 @@ class Runner:
                 info["pat_order"] = order
                 ap = [list(range(sy.n)), [sy.word(p) for p in order], c.kw["contains"], c.kw["must_be_suffix"]]
                 reqs.append((15, OP_AC, enc.tree([ap, [] if timpl is None else [timpl]])))
+            if c.kind == "from_finite_language":
+                # the mirror model of the Mihov-Schulz construction (coq/Model/FiniteLang.v, driver op 14); the words go in
+                # the iteration order of the set (the model sorts them as the code does)
+                info["slots"]["fl"] = len(reqs)
+                fp = [list(range(sy.n)), [sy.word(w) for w in c.kw["lang"]], c.kw["as_partial"]]
+                reqs.append((15, OP_FL, enc.tree([fp, [] if timpl is None else [timpl]])))
             if c.kind in ("from_substring", "from_suffix"):
                 # the mirror model of the code itself (KMP table + transition loop, coq/Model/KMP.v, driver op 11)
                 info["slots"]["kmp"] = len(reqs)
@@ -359,6 +372,17 @@ class Runner:
             ctx.case(c.key(), False)
             if r[0] != "err" or r[1] != model[1]:
                 self.violation(f"{fam}:refusal", f"{c.kind}{c.kw}: expected refusal with code {model[1]}, implementation gave {r[:1] + r[2:] if r[0] == 'err' else 'a DFA'}", rp)
+            return
+        flm = enc.dec_res(ans["fl"][0]) if "fl" in ans else None
+        if flm is not None and flm[0] == "err":
+            # the mirror model of from_finite_language refuses (validate(): a word has a symbol outside the alphabet):
+            # the implementation must refuse with the same kind of exception
+            ctx.tally("refusal")
+            ctx.tally("fl_mirror_refusal")
+            ctx.case(c.key(), False)
+            if r[0] != "err" or r[1] != flm[1]:
+                self.violation(f"{fam}:refusal", f"{c.kind}{c.kw}: the mirror model refuses with code {flm[1]}, implementation gave "
+                               f"{r[:1] + r[2:] if r[0] == 'err' else 'a DFA'}", dict(rp, correspondence="C15/fl-mirror"))
             return
         if r[0] == "err":
             ctx.case(c.key(), False)
@@ -470,6 +494,36 @@ class Runner:
                         ctx.tally("ac_mirror_table_differs_language_equal")
                     elif info["canonical"]:
                         ctx.tally("ac_mirror_table_identical")
+        # ---- against the mirror model of the Mihov-Schulz construction ----
+        if flm is not None:
+            ctx.tally("fl_mirror_compared")
+            fdiff = enc.dec_res(ans["fl"][1][1])
+            names = enc.dec_res(ans["fl"][2])
+            if fdiff[0] != "ok" or names[0] != "ok":
+                self.violation(f"{fam}:comparator", f"{c.kind}: comparator / state names failed {fdiff} {names}", rp, confirmed=False)
+            elif fdiff[1]:
+                w = sy.unword(fdiff[1][0])
+                got, want = d.accepts_input(w), c.pred(w)
+                if got != want:
+                    problems.append(("language", f"accepts_input({w!r}) = {got}, the specified predicate gives {want}"))
+                else:
+                    self.violation(f"{fam}:fl-mirror-vs-impl-unconfirmed",
+                                   f"{c.kind}{c.kw}: comparator reports word {w!r} against the mirror model of the construction "
+                                   "but implementation and predicate agree on it (model problem; Coq: "
+                                   "C15_from_finite_language_lang)", dict(rp, correspondence="C15/fl-mirror"), confirmed=False)
+            else:
+                # exact table: the implementation's states are prefix strings (and the trap 0 / the single state 0 of
+                # empty_language); the model says which prefix its i-th state is
+                number = {tuple(wd): i for i, wd in enumerate(names[1])}
+                sm = lambda q: number.get(tuple(sy.word(q)), -1) if isinstance(q, str) else len(number)
+                img = [sm(q) for q in enc.dfa_names(d)]
+                same = (min(img, default=0) >= 0 and len(set(img)) == len(img)
+                        and enc.tree(canon_dfa_tree(flm[1])) == enc.tree(enc.enc_dfa(d, sm, sy)))
+                if same:
+                    ctx.tally("fl_mirror_table_identical")
+                else:
+                    ctx.structural += 1
+                    ctx.tally("fl_mirror_table_differs_language_equal")
         if not valid_impl:
             problems.append(("valid", "result does not satisfy the DFA validity rules"))
         # ---- (b) predicate level ----
@@ -492,7 +546,7 @@ class Runner:
         if bad is not None:
             problems.append(("language", f"table walk on {bad!r} gives {not c.pred(bad)}, accepts_input = {d.accepts_input(bad)}, "
                                          f"the specified predicate gives {c.pred(bad)}"))
-        for _ in range(6):
+        for _ in range(6 if c.sigma else 0):
             w = "".join(ctx.rng.choice(c.sigma) for _ in range(ctx.rng.randint(0, 9)))
             if d.accepts_input(w) != c.pred(w):
                 problems.append(("language", f"accepts_input({w!r}) = {d.accepts_input(w)}, the specified predicate gives {c.pred(w)}"))
@@ -729,8 +783,8 @@ def run(ctx):
         for c in (True, False):
             for m in ((True,) if foreign_open else (True, False)):
                 cases.append(Case("from_substrings", sigma, pats=frozenset(pats), contains=c, must_be_suffix=m))
-    # from_finite_language
-    for sigma in ("a", "ab"):
+    # from_finite_language (the empty alphabet included: the only languages are {} and {""})
+    for sigma in ("", "a", "ab"):
         for ap in (True, False):
             cases.append(Case("from_finite_language", sigma, lang=frozenset(), as_partial=ap))
             cases.append(Case("from_finite_language", sigma, lang=frozenset({""}), as_partial=ap))
@@ -739,6 +793,15 @@ def run(ctx):
         lang = rand_language(rng, sigma)
         for ap in (True, False):
             cases.append(Case("from_finite_language", sigma, lang=lang, as_partial=ap))
+    # languages with a word that has a symbol outside the alphabet: refused by validate() (InvalidSymbolError), as the mirror model
+    for _ in range(ctx.n(12, 150)):
+        sigma = rng.choice(["a", "ab", "bc"])
+        lang = set(rand_language(rng, sigma))
+        base = rng.choice(sorted(lang))
+        j = rng.randint(0, len(base))
+        lang.add(base[:j] + rng.choice("ayz".replace("a", "" if "a" in sigma else "a")) + base[j:][:2])
+        for ap in (True, False):
+            cases.append(Case("from_finite_language", sigma, lang=frozenset(lang), as_partial=ap))
     if thorough:
         # exhaustive: every set of 1-2 non-empty patterns of length <= 2 over {a,b}; every language of <= 2 words of length <= 2
         pool = [p for p in patterns("ab", 2) if p]
@@ -787,6 +850,13 @@ def replay(ctx, case):
             print("KMP mirror model:", m[0])
             tt = enc.dec_res(t)
             print("KMP failure table of the mirror model:", [v - 1 for v in tt[1]] if tt[0] == "ok" else tt)
+    if c.kind == "from_finite_language":
+        sy = enc.SymMap(c.sigma, extra="".join(c.kw["lang"]))
+        fp = [list(range(sy.n)), [sy.word(w) for w in c.kw["lang"]], c.kw["as_partial"]]
+        m = ctx.driver.batch([(15, OP_FL, enc.tree([fp, []]))])[0]
+        print("mirror model of the construction:", m[0])
+        nm = enc.dec_res(m[2])
+        print("its state names (state i = i-th prefix):", [sy.unword(w) for w in nm[1]] if nm[0] == "ok" else nm)
     known_finding_reproducer(ctx)
     Runner(ctx).run_cases([c])
     print("replay:", "VIOLATION reproduced" if ctx.violations else "no disagreement")
